@@ -122,6 +122,16 @@ def check(ctx):
         if ok:
             ok = bool(find("chunkss[i] = tuple((b if a == 1 else a for (a, b) in zip(chunkss[i], c)))", picks[0].orelse[0]))
         ctx.ob("ALG.blockwise.unaligned-chunks", f, f"{q}: most blocks win; on a tie, blocks of length 1 take the other input's block lengths", ok, "" if ok else "on a tie the first input wins even when its blocks have length 1 and broadcast: map_blocks(np.add, x(1,6), y(4,6)) declares shape (1, 6) but computes (4, 6)")
+    # ---------------- "any array expression": the metadata arithmetic of every array routine that has a twin in the
+    # expression engine must agree with it, and two array results that differ must not share a name (a shared
+    # name makes one result's blocks stand in for the other's: computed shape != lazy shape)
+    from ._twins import all_pairs, all_loose
+    from .C13 import key_inputs
+
+    n_all = check_pairs(ctx, all_pairs(), rule="TWIN.agree.all")
+    check_loose(ctx, all_loose(), rule="TWIN.shared-line.all")
+    ctx.count("all_twin_pairs", n_all)
+    key_inputs(ctx, floor=40, prefix="dask/array/")
 
 
 VARIANTS = [
